@@ -4,4 +4,4 @@ From PV Require Import Lib.Base Lib.Utf8 Syntax.RGrammar Syntax.Code Syntax.Ast 
 Require Import ExtrOcamlBasic.
 Extraction Language OCaml.
 Set Extraction KeepSingleton.
-Extraction "model.ml" prepare lr_cycle lr_rules basic_latin table_agrees_b rd pos_of parse env_of_blocks decode perr_string init_state faithful repaired rparse blocks_of_log relevant_terms far_pos far_expected.
+Extraction "model.ml" prepare lr_cycle lr_rules basic_latin table_agrees_b slow_decide table_decide rd pos_of parse env_of_blocks decode perr_string init_state faithful repaired rparse blocks_of_log relevant_terms far_pos far_expected.
